@@ -36,7 +36,7 @@ func dbTest(t *testing.T, prop, test, rule string, p Profile, opt Options) {
 	})
 }
 
-var profC01 = Profile{W: with(baseWeights(), map[int]int{opSnapshot: 5, opQuery: 2, opChanges: 1, opNext: 2, opGC: 1, opCloseIter: 1}), GC: 25, TwoTxns: true}
+var profC01 = Profile{W: with(baseWeights(), map[int]int{opSnapshot: 5, opQuery: 2, opChanges: 1, opNext: 2, opGC: 1, opCloseIter: 1}), GC: 25, TwoTxns: true, Unlocked: true}
 
 const ruleC01 = "histories of up to ~50 operations over 1-3 tables with random index sets (unique multi-key, non-unique multi-key, non-unique LPM, unique LPM): write transactions (one or two open at once) with inserts, key-changing updates, deletes, CAS/CAD, commits and aborts, change iterators and (25% of cases) the graveyard worker; up to 6 snapshots are retained (db.ReadTxn() at arbitrary points), a full audit (every query kind for every alphabet key on every index, counts, revision, initialization) is recorded when each is taken, sampled re-audits follow every later operation and a full re-audit ends the case. Non-trivial = a retained snapshot was re-audited after a later committed write; distinct by case encoding."
 
@@ -60,7 +60,7 @@ func TestC04Indexes(t *testing.T) {
 	dbTest(t, "C04", "TestC04Indexes", ruleC04, profC04, Options{FullAuditEvery: true})
 }
 
-var profC09 = Profile{W: with(baseWeights(), map[int]int{opCAS: 4, opCAD: 3, opSnapshot: 1, opChanges: 1, opNext: 2}), TwoTxns: true}
+var profC09 = Profile{W: with(baseWeights(), map[int]int{opCAS: 4, opCAD: 3, opSnapshot: 1, opChanges: 1, opNext: 2}), TwoTxns: true, Unlocked: true}
 
 const ruleC09 = "the C03 operation mix on 1-3 tables with one or two open transactions: after every operation the table revision inside the transaction must equal the model (strictly increased by each successful write, unchanged by no-op deletes, rejected compare-and-* and aborts) and the written object must carry exactly that revision; every committed state is checked for pairwise distinct revisions, ascending by-revision listing with exactly the live objects, and object revisions not above the table revision. Non-trivial = a history with a rejected guard operation after a successful write and an aborted transaction with successful writes; distinct by case encoding."
 
